@@ -219,7 +219,7 @@ func runC01(c *Ctx) {
 	cps := c.codePoints()
 	for _, cp := range cps {
 		s := string(cp)
-		t := &Tree{K: '[', Xs: []*Tree{tStr(s), obj1(s, tStr("x" + s + "y"))}}
+		t := &Tree{K: '[', Xs: []*Tree{tStr(s), obj1(s, tStr("x"+s+"y"))}}
 		c.rtLine(t)
 		c.St.Eval("cp:"+s, true)
 	}
